@@ -25,6 +25,9 @@ import YarlProofs.C01Reach
   `a.tabC` = the table of configuration `a` on the compiled backend (`a.run .c s` is `quoteC a.tabC s` by definition);
   `cOut t x` = the characters the compiled loop writes for input `x`, `cChanged t x` = its final `changed` flag,
   `allSafe t x` = the fast path "every character is safe" (YarlModel/Quote.lean); `stripSurr` drops lone surrogates.
+
+  Continued in C05HeadlineMore3.lean (URLs made through ALL entry points incl. `encoded=True`: GAPS 4; TypeError at the
+  type gates of the URL methods, model level: GAPS 1).
 -/
 set_option linter.unusedVariables false
 namespace Yarl
@@ -276,6 +279,18 @@ GAPS:
     pure-Python model never raises.  STILL OPEN: the quoter / unquoter models `a.run` are TOTAL functions on lists of
     code points; the other exception of the real implementations (TypeError for a non-str argument) is outside
     `a.run` and `quoteCW`, so no theorem compares it across the two backends.
+    (Added at the More3 refresh — sharpened at URL level, MODEL level only: YarlModel/Dyn.lean now transcribes the type
+    gates of the URL methods on an arbitrary Python object, and C19_dyn_type_errors (C19Dyn.lean) gives the exact
+    TypeError condition as a property of the object alone; see C05_headline_type_gates_backend (C05HeadlineMore3.lean):
+    with_scheme / with_user / with_password / with_host / with_port / with_fragment / with_name / with_suffix / join / `/`
+    reject an object with TypeError on the pure-Python backend exactly when they do on the compiled one.  The dynamic
+    layer is tied to CPython by a run-time probe table (run on both quoter backends), not by proof.  On arguments of
+    the documented types the dynamic entry points ARE the typed functions (C19_dyn_agrees_on_typed, by `rfl`), so the
+    URL-level theorems of this file apply to them.  NOT covered by a backend comparison: the constructor gate, the
+    query methods (YarlModel/Dyn.lean, `keyStr`, models `quoter(key)` — TypeError for a non-str key, `None` passed
+    through — by ONE function for both backends, by construction; the C12Dyn.lean theorems about it hold for every
+    `e` but state no backend comparison), `with_path` / `joinpath` (no type gate), and — unchanged — the quoters' own
+    TypeError.)
  2. CLOSED by C19_quoteCW_refines_run, C05_quoteCW_backend_any, C05_quoteCW_backend, C05_unquoteCW_backend
     (C19Quoter.lean, over the new model file YarlModel/QuoteW.lean), see
     C05_headline_buffer_growth_quoter_through_writer, C05_headline_buffer_growth_unquoter_through_writer.  Proved: the
@@ -295,6 +310,15 @@ GAPS:
     so update_query / without_query_params / with_scheme / join agree on the two backends without further
     hypothesis.  (Records made with `encoded=True` are outside `Reach`; for them the hypothesis `PyStr u.query` of
     C05_headline_remaining_modifiers_backend stays.)
+    That remainder is now CLOSED by C01_reachE_components_python (C01ReachE.lean, over ReachE.lean), see
+    C05_headline_remaining_modifiers_backend_all_entry_points (C05HeadlineMore3.lean).  Proved: for every URL in
+    `ReachE` — the closure of ALL entry points of the model: `URL(s)`, `URL(s, encoded=True)`, `URL.build` in both modes,
+    the operations, `with_path(…, encoded=True)`, `joinpath(…, encoded=True)`, `join`; made on either backend —
+    `PyStr u.query` holds, so update_query / without_query_params / with_scheme / join agree on the two backends without
+    a hypothesis on the record.  Hypotheses: those built into `ReachE` — every text handed to an entry point is a
+    Python string (`PyStr`, `BuildAllPy`, `UOp.ArgsPy`), query arguments satisfy `QArgPy`.  Not an entry point of
+    `ReachE`: the model artefact `UOp.joinRef` with an arbitrary record (a `join` reference must itself be `ReachE`),
+    and records that no entry point produces (e.g. unpickled from a tampered state): for those the hypothesis stays.
  5. The oracles (`o`: IDNA, NFKC, isprintable, …) are shared by both sides by construction: "independent of the C
     extension" is proved for equal oracle answers, which is right because none of them lives in the C extension.
 -/
